@@ -102,6 +102,12 @@ async fn run_script(steps: &[Value]) -> Vec<Value> {
                 _ => {}
             }
         };
+        if st["nosettle"].as_bool().unwrap_or(false) {
+            // issued without waiting for the loop: the command stays queued; nothing is observed here
+            apply(e);
+            out.push(json!({"e": e, "hold": false, "nosettle": true, "dhb": 0, "sends": [], "term": term, "running": term == "none", "locked_quiet": true}));
+            continue;
+        }
         if e == "Start" {
             settle().await;
         } else if hold {
@@ -131,7 +137,7 @@ async fn run_script(steps: &[Value]) -> Vec<Value> {
                 _ = std::future::ready(()) => {}
             }
         }
-        out.push(json!({"e": e, "hold": hold, "dhb": hb_now - hb_prev, "sends": sends, "term": term, "running": term == "none", "locked_quiet": locked_quiet}));
+        out.push(json!({"e": e, "hold": hold, "nosettle": false, "dhb": hb_now - hb_prev, "sends": sends, "term": term, "running": term == "none", "locked_quiet": locked_quiet}));
         hb_prev = hb_now;
     }
     // a shutdown request must always complete: the join handle resolves
